@@ -74,8 +74,30 @@ def _cls(spec):
     return ":int-names-vs-numbers" if _int_name_clash(spec) else ""
 
 
+class _Hang(BaseException):
+    pass
+
+
+@contextlib.contextmanager
+def _time_limit(sec):
+    def h(*a):
+        raise _Hang()
+
+    old = signal.signal(signal.SIGALRM, h)
+    signal.alarm(sec)
+    try:
+        yield
+    finally:
+        signal.alarm(0)
+        signal.signal(signal.SIGALRM, old)
+
+
+_STAGE = [""]  # which sampler call is running (for the time-limit key)
+CASE_LIMIT = 40  # seconds; a normal case takes well under a second
+
+
 # failure classes that the name/number confusion can produce (wrong column picked, consequently impossible rows / NaN kernels)
-_CLASS_DEPENDENT = ("weights", "_weight", "kernel", "zero-probability", "raised", "by-number")
+_CLASS_DEPENDENT = (":weights", ":_weight", "kernel", "zero-probability", "raised", "by-number", "does-not-terminate")
 _CLASS_INDEPENDENT = ("partial_samples:named-states",)
 
 
@@ -89,8 +111,12 @@ def _classed(check):
     def wrapper(case):
         sp = case.get("spec") or case.get("mn")
         cls = _cls(sp)
+        _STAGE[0] = ""
         try:
-            r = check(case)
+            with _time_limit(CASE_LIMIT):
+                r = check(case)
+        except _Hang:
+            return {"key": f"{_STAGE[0] or check.__name__}:does-not-terminate", "what": f"no result within {CASE_LIMIT} s (last sampler call: {_STAGE[0]})"}
         except Exception as e:  # noqa
             if not cls:
                 raise
@@ -553,6 +579,7 @@ def check_rejection(case):
         evl = [State(v, st) for v, st in ev.items()] if i % 2 else [(v, st) for v, st in ev.items()]
         rec = Recorder()
         with patched(rec):
+            _STAGE[0] = "rejection_sample"
             df = s.rejection_sample(evidence=evl, size=size, include_latents=incl, show_progress=False)
         f = _check_rejection_run(spec, lat, rec, df, ev, size, incl, "rejection_sample", cls)
         if f:
@@ -563,7 +590,7 @@ def check_rejection(case):
         for v in nodes:
             ps = pd.DataFrame({v: [spec["states"][v][k % len(spec["states"][v])] for k in range(size)]})
             others = [u for u in nodes if u != v]
-            for ev in ([{}] + [e for e in _evidence_sets(spec, rng, 3, positive=True) if v not in e][:2]):
+            for ev in ([e for e in _evidence_sets(spec, rng, 3, positive=True) if v not in e][:2] + [{}]):
                 rec = Recorder()
                 with patched(rec):
                     df = s.rejection_sample(evidence=list(ev.items()), size=3, include_latents=True, show_progress=False, partial_samples=ps)
@@ -1103,6 +1130,7 @@ def check_real(case):
     s0 = BayesianModelSampling(m)
     for incl in (True, False):
         cols = [v for v in nodes if incl or v not in lat]
+        _STAGE[0] = "real-rng samplers"
         df, f = twice("forward_sample", lambda s: s.forward_sample(size=N, include_latents=incl, seed=sd, show_progress=False))
         f = f or _check_real_frame(spec, df, N, cols, "forward_sample")
         if f:
@@ -1201,33 +1229,18 @@ def check_gibbs_api(case):
 
 
 # ----------------------------------------------------------------------------- group: simulate()
-class _Hang(Exception):
-    pass
-
-
-@contextlib.contextmanager
-def _time_limit(sec):
-    def h(*a):
-        raise _Hang()
-
-    old = signal.signal(signal.SIGALRM, h)
-    signal.alarm(sec)
-    try:
-        yield
-    finally:
-        signal.alarm(0)
-        signal.signal(signal.SIGALRM, old)
-
-
-def _mutilate(spec, do, ve):
-    """spec of the network simulate() must sample from: incoming edges of do-variables cut (their own law is free),
-    one binary child '__X' per virtual evidence on X with P(__X=0 | X=x) = likelihood(x)."""
-    x = {"nodes": list(spec["nodes"]), "edges": [e for e in spec["edges"] if e[1] not in do], "states": dict(spec["states"]),
+def _mutilate(spec, do, ve, vi=None):
+    """spec of the network simulate() must sample from: incoming edges of do / virtual-intervention variables cut (their own
+    law is left free by the contract; for positivity computations the parent-averaged CPD is used), one binary child '__X'
+    per virtual evidence / virtual intervention on X with P(__X=0 | X=x) = likelihood(x)."""
+    vi = vi or {}
+    cut = set(do) | set(vi)
+    x = {"nodes": list(spec["nodes"]), "edges": [e for e in spec["edges"] if e[1] not in cut], "states": dict(spec["states"]),
          "cpd": {v: dict(c) for v, c in spec["cpd"].items()}}
-    for v in do:
-        card = len(spec["states"][v])
-        x["cpd"][v] = {"parents": [], "table": [[Fraction(1) if spec["states"][v][i] == do[v] else Fraction(0)] for i in range(card)]}
-    for v, lik in ve.items():
+    for v in cut:
+        tab = spec["cpd"][v]["table"]
+        x["cpd"][v] = {"parents": [], "table": [[sum(row) / len(row)] for row in tab]}
+    for v, lik in {**ve, **vi}.items():
         nv = "__" + v
         x["nodes"].append(nv)
         x["edges"].append([v, nv])
@@ -1239,8 +1252,8 @@ def _mutilate(spec, do, ve):
 def _sim_configs(spec, lat, rng):
     nodes = spec["nodes"]
     out = []
-    for trial in range(7):
-        do, ev, ve = {}, {}, {}
+    for trial in range(9):
+        do, ev, ve, vi = {}, {}, {}, {}
         pool = nodes[:]
         rng.shuffle(pool)
         if trial in (0, 3, 4, 6) and pool:
@@ -1251,10 +1264,13 @@ def _sim_configs(spec, lat, rng):
         if trial in (2, 4, 5, 6) and pool:
             v = pool.pop()
             ve[v] = [str(Fraction(rng.randint(1, 9), 10)) for _ in spec["states"][v]]
-        if trial in (1, 3, 5, 6) and pool:
+        if trial in (7, 8) and pool:
+            v = pool.pop()
+            vi[v] = [str(Fraction(rng.randint(1, 9), 10)) for _ in spec["states"][v]]
+        if trial in (1, 3, 5, 6, 8) and pool:
             v = pool.pop()
             ev[v] = None
-        out.append((do, ev, ve))
+        out.append((do, ev, ve, vi))
     return out
 
 
@@ -1272,9 +1288,9 @@ def check_simulate(case):
     m = O.make_bn(spec, lat)
     sd = case["seed"] % 7919
     deferred = []  # failure classes that do not invalidate the remaining checks of the case
-    for t, (do, ev, ve) in enumerate(_sim_configs(spec, lat, rng)):
-        xspec = _mutilate(spec, do, ve)
-        allev = {**do, **{"__" + v: 0 for v in ve}}
+    for t, (do, ev, ve, vi) in enumerate(_sim_configs(spec, lat, rng)):
+        xspec = _mutilate(spec, do, ve, vi)
+        allev = {**do, **{"__" + v: 0 for v in {**ve, **vi}}}
         for v in list(ev):
             cands = [s for s in spec["states"][v] if sum(O.marginal(xspec, [], {**allev, v: s}).values()) > 0]
             if not cands:
@@ -1286,13 +1302,14 @@ def check_simulate(case):
             continue
         incl = bool(t % 2)
         size = (5, _prod_cards(spec) + 1)[t % 2]
-        desc = f"simulate(n_samples={size}, do={do}, evidence={ev}, virtual_evidence={ve}, include_latents={incl})"
+        desc = f"simulate(n_samples={size}, do={do}, evidence={ev}, virtual_evidence={ve}, virtual_intervention={vi}, include_latents={incl})"
 
         def run(**extra):
-            vel = [TabularCPD(v, len(lik), [[float(Fraction(l))] for l in lik], state_names={v: list(spec["states"][v])}) for v, lik in ve.items()]
+            _STAGE[0] = "simulate"
+            mk = lambda d: [TabularCPD(v, len(lik), [[float(Fraction(l))] for l in lik], state_names={v: list(spec["states"][v])}) for v, lik in d.items()]  # noqa
             ev_arg = dict(ev)
-            r = m.simulate(n_samples=size, do=dict(do) or None, evidence=ev_arg or None, virtual_evidence=vel or None, include_latents=incl,
-                           show_progress=False, **extra)
+            r = m.simulate(n_samples=size, do=dict(do) or None, evidence=ev_arg or None, virtual_evidence=mk(ve) or None,
+                           virtual_intervention=mk(vi) or None, include_latents=incl, show_progress=False, **extra)
             return r, ev_arg
 
         # (1) call-site contract with the sinks stubbed
@@ -1307,7 +1324,7 @@ def check_simulate(case):
             deferred.append({"key": "simulate:auxiliary-columns-returned", "what": f"{desc}: columns {list(df.columns)} contain {extra_cols}, which are not model variables"})
             df = df.loc[:, [c for c in df.columns if c in nodes]]
         if allev:
-            f = _check_rejection_run(xspec, lat, rec, df, {k: v for k, v in allev.items()}, size, incl, "simulate", cls, free=set(do), want_cols=want_cols)
+            f = _check_rejection_run(xspec, lat, rec, df, {k: v for k, v in allev.items()}, size, incl, "simulate", cls, free=set(do) | set(vi), want_cols=want_cols)
         else:
             if len(rec.invocations) != 1:
                 return {"key": "simulate:invocations", "what": desc}
@@ -1333,7 +1350,7 @@ def check_simulate(case):
             for k in range(size):
                 a = {c: data[c][k] for c in nodes}
                 for v in nodes:
-                    if v not in do and O.cpd_value(spec, v, a) == 0:
+                    if v not in do and v not in vi and O.cpd_value(spec, v, a) == 0:
                         return {"key": "simulate:zero-probability-state", "what": f"{desc}: row {a}: P({v}={a[v]!r} | parents) = 0"}
         mcols = [c for c in want_cols if rng.random() < 0.5] or None
         np.random.seed(4100)
@@ -1370,10 +1387,10 @@ def check_simulate_do_impossible(case):
         for i, s in enumerate(spec["states"][v]):
             if all(x == 0 for x in spec["cpd"][v]["table"][i]):
                 try:
-                    with _time_limit(3):
+                    with _time_limit(5):
                         df = m.simulate(n_samples=3, do={v: s}, show_progress=False, seed=1, include_latents=True)
                 except _Hang:
-                    return {"key": "simulate:do-impossible-state:does-not-terminate", "what": f"simulate(n_samples=3, do={{{v!r}: {s!r}}}) did not return within 3 s: "
+                    return {"key": "simulate:do-impossible-state:does-not-terminate", "what": f"simulate(n_samples=3, do={{{v!r}: {s!r}}}) did not return within 5 s: "
                             f"the do-variable is sampled from its observational CPD (P={[str(x) for x in spec['cpd'][v]['table'][i]]}) and rejected"}
                 if len(df) != 3 or not all(_eq_state(x, s) for x in _col_list(df, v)):
                     return {"key": "simulate:do-impossible-state:result", "what": f"do({v}={s!r}): {df}"}
@@ -1425,5 +1442,5 @@ def groups(tier):
               bound=b + " (3 variants); 7 seeded combinations of do / evidence / virtual evidence per model; do-states restricted to states with positive "
                         "observational mass (the complement is group simulate_do_impossible)"),
         Group("simulate_do_impossible", gen_do_impossible, check_simulate_do_impossible, lambda c: True, engine="E3",
-              bound="<= 12 (40) models <= 3 nodes having a state of probability zero in every column; 3 s time limit"),
+              bound="<= 12 (40) models <= 3 nodes having a state of probability zero in every column; 5 s time limit"),
     ]
